@@ -17,6 +17,9 @@ def eval_flag_condition(cond, val):
     """Conditions over free boolean flags."""
     if cond is True or cond is False:
         return cond
+    import numpy as np
+    if isinstance(cond, (int, float, np.generic)) and not isinstance(cond, Variable):
+        return bool(cond)          # a constant guard: what the interpreter's truth test makes of it
     if isinstance(cond, Variable):
         return bool(val[cond.name])
     if isinstance(cond, LogicalNot):
